@@ -137,8 +137,27 @@ func init() {
 					pc.Labels = append(pc.Labels, "K37-region")
 				}
 			}
+			if i%4 == 1 {
+				// tag lists LONGER than the default three, and in other orders: every wire still finds its own key
+				pc.Cfg.Tags = core.Pick(c.R, [][]string{{"json", "yaml", "mapstructure", "toml"}, {"yaml", "json", "toml", "xml", "mapstructure"}, {"toml", "yaml", "json", "bson"}, {"yaml", "json"}})
+				pc.Labels = append(pc.Labels, "many-tags")
+			}
 			pcs = append(pcs, pc)
 			metas = append(metas, meta{kinds})
+		}
+		// … and a fixed family with camelCase / snake_case names (the key differs from the lower-cased field name) under
+		// tag lists of two to six entries
+		for _, tags := range [][]string{{"yaml", "json"}, {"json", "yaml", "mapstructure"}, {"json", "yaml", "mapstructure", "toml"}, {"json", "yaml", "mapstructure", "toml", "xml"}, {"bson", "toml", "xml", "json", "mapstructure", "yaml"}} {
+			sch := M{"type": "object", "required": []any{"userName"}, "properties": M{
+				"userName": M{"type": "string"}, "nickName": M{"type": "string", "minLength": 3}, "retry_count": M{"type": "integer", "maximum": 10},
+				"homeRegion": M{"type": "string", "default": "eu"}, "port": M{"type": "integer", "minimum": 1}}}
+			full := M{"userName": "alice", "nickName": "ally", "retry_count": 3, "homeRegion": "us", "port": 80}
+			docs := []any{full, M{"userName": "alice"}, M{"userName": "alice", "nickName": "al"}, M{"userName": "alice", "retry_count": 11}, M{"userName": "alice", "port": 0}, M{"nickName": "ally"}}
+			pc := baseCase("c17-yaml-json", sch, docs, "many-tags", strings.Join(tags, ","))
+			pc.Cfg.ExtraImports = true
+			pc.Cfg.Tags = tags
+			pcs = append(pcs, pc)
+			metas = append(metas, meta{[]string{"valid", "valid", "length", "bound", "bound", "required"}})
 		}
 		// fractional bounds on INTEGER members in every spelling (inclusive, numeric exclusive, boolean exclusive), values on
 		// both neighbouring integers: the bound is rounded when the check is emitted, once per wire
